@@ -576,6 +576,16 @@ func (x *Exec) instr(fr *frame, s *State, in ssa.Instruction) {
 		for _, a := range in.Call.Args {
 			x.operand(fr, s, a)
 		}
+		// the spawn itself is an observable event: ghost clauses of the spawned function's contract apply
+		if callee := in.Call.StaticCallee(); callee != nil {
+			x.atCallCheck(fr, s, "go "+x.E.fnKey(callee))
+			if ct := x.E.contractFor(callee); ct != nil && len(ct.Ghost) > 0 {
+				env := &specEnv{x: x, fn: callee, st: s, names: map[string]Value{}}
+				for _, g := range ct.Ghost {
+					x.ghostUpdate(env, s, g)
+				}
+			}
+		}
 	case *ssa.Defer:
 		d := deferred{call: in}
 		for _, a := range in.Call.Args {
